@@ -109,6 +109,7 @@ func judgeC08(c c08Case) []Violation {
 				return vs // the switch was rejected: nothing to check
 			}
 			ro = true
+			w.tr("srv ro 1", "ok")
 			w.fs.TakeLog()
 		}
 		r := w.do(o)
@@ -133,6 +134,11 @@ func judgeC08(c c08Case) []Violation {
 }
 
 func checkC08(r *Result, rng *rand.Rand, thorough bool) {
+	traces, doneTraces := collectTraces(200)
+	defer func() {
+		doneTraces()
+		compareSrv(r, "srv", *traces)
+	}()
 	ncases, n := 200, 30
 	if thorough {
 		ncases, n = 1200, 60
